@@ -26,6 +26,7 @@ structure St where
   xkind : String := ""                 -- C++ part: kind of the handles of this script (`x handles n kind`)
   refs : Driver.Refs.RSt := {}         -- third part of C05 (`r` lines): buffers of references
   nullable : Bool := false             -- the script uses the destructor-only type f8 (a zeroed element is empty)
+  tails : List Nat := []               -- S: bytes of a slice handle's array behind its window
   deriving Inhabited
 
 def traitsByName (elem : Bool) : String → Option (Option Traits)
@@ -430,7 +431,8 @@ def step (elem : Bool) (st : St) (w : List String) : St × String :=
           let used := (bufOf m h).map (·.used) |>.getD 0
           if off + len > used then emit elem st "refused" "-" "-" [refAlt st]
           else
-            let st1 := { st with m := m.setWin h (some { off := off, len := len }), sp := setNth st.sp h (Vec.sub v off len) }
+            let st1 := { st with m := m.setWin h (some { off := off, len := len }), sp := setNth st.sp h (Vec.sub v off len),
+                                 tails := (st.tails ++ List.replicate (st.nh - st.tails.length) 0).set h (v.length - (off + len)) }
             emit elem st1 "ok" "-" "-" [("ok -", st1.sp)]
         | _, _ => bad
       | "swrite", [nblk, esz, dat] =>
@@ -438,8 +440,17 @@ def step (elem : Bool) (st : St) (w : List String) : St × String :=
         | some nblk, some esz, some (bytes, _) =>
           if ¬ isWin ∨ esz = 0 ∨ nblk > 64 ∨ esz > 4096 ∨ bytes.length ≠ nblk * esz then bad
           else
-            let alts := ((List.range (nblk + 1)).map fun k => okAlt st h (Vec.append v (Vec.blocks bytes k esz)) s!"n{k}") ++ [refAlt st]
-            finish elem st (sliceWrite m h nblk esz bytes) (fun r _ => s!"n{r}") (fun r _ => toString r) alts
+            -- what lies behind the window is scratch space: `k ≥ 1` written blocks use it up (the rest stays) or the
+            -- array ends with the window
+            let tail := st.tails.getD h 0
+            let tailOf := fun (m' : State) => match m'.win h, bufOf m' h with
+              | some w, some x => x.used - (w.off + w.len)
+              | _, _ => 0
+            let alts := ((List.range (nblk + 1)).flatMap fun k =>
+              ((if k = 0 then [tail] else [0, tail - k * esz].eraseDups).map fun t' =>
+                okAlt st h (Vec.append v (Vec.blocks bytes k esz)) s!"n{k}t{t'}")) ++ [refAlt st]
+            let (st', line) := finish elem st (sliceWrite m h nblk esz bytes) (fun r m' => s!"n{r}t{tailOf m'}") (fun r _ => toString r) alts
+            ({ st' with tails := (st.tails ++ List.replicate (st.nh - st.tails.length) 0).set h (tailOf st'.m) }, line)
         | _, _, _ => bad
       | _, _ => bad
   | _ => bad
